@@ -204,7 +204,7 @@ func (s *c02Seq) seed() {
 // step performs one derived operation; returns false after a violation.
 func (s *c02Seq) step() bool {
 	r := s.r
-	switch r.Intn(32) {
+	switch r.Intn(33) {
 	case 0, 1, 2, 3:
 		if v := s.pick(isSeqN); v != nil {
 			n := 1 + r.Intn(2)
@@ -371,6 +371,18 @@ func (s *c02Seq) step() bool {
 			}
 		}
 		return true
+	case 31:
+		// code held as data: a quoted form containing macro calls is bound, evaluated through eval (possibly twice),
+		// and must still be the form it was
+		code := []string{"(quote (list (cond false 1 true 2) (and 1 2) (or nil 3)))", "(quote (do (-> 1 (+ 2)) (->> [1 2] (map inc))))", "(quote (let (a (or nil 1)) (list a (cond nil 0 :else a))))"}[r.Intn(3)]
+		if !s.bind(code, "quoted-code", false) {
+			return false
+		}
+		cv := s.vals[len(s.vals)-1]
+		if !s.effect(fmt.Sprintf("(eval %s)", cv.name), "eval-quoted-code") {
+			return false
+		}
+		return s.effect(fmt.Sprintf("(list (eval %s) (eval %s))", cv.name, cv.name), "eval-quoted-code")
 	case 27:
 		// nesting: a value stored inside another collection
 		if a := s.pick(isCollN); a != nil {
